@@ -51,7 +51,22 @@ func (g *G) genStruct(pkg string, exported bool) *Struct {
 				t = TInt
 			}
 		}
-		s.Fields = append(s.Fields, Field{Name: fmt.Sprintf("F%d", i), T: t})
+		// field names come from a shared pool, so that different struct types reuse names and the
+		// interned indexes of one type's fields are not consecutive (collisions in the field table)
+		name := ""
+		for {
+			name = fmt.Sprintf("F%d", g.r.Intn(48))
+			dup := false
+			for _, f := range s.Fields {
+				if f.Name == name {
+					dup = true
+				}
+			}
+			if !dup {
+				break
+			}
+		}
+		s.Fields = append(s.Fields, Field{Name: name, T: t})
 	}
 	return s
 }
@@ -129,6 +144,51 @@ func (g *G) returnStmt() {
 		g.line("return")
 		return
 	}
+	// return f(...): the callee's results are forwarded as they are
+	if g.r.Chance(1, 3) && !g.noCalls {
+		var cands []string
+		for _, f := range g.callable() {
+			if f.Recv != nil || f.Rec || f.Variadic || (g.curPure && !f.Pure) || len(f.Results) != len(g.curResults) {
+				continue
+			}
+			same := true
+			for i, rt := range f.Results {
+				if !rt.Eq(g.curResults[i]) {
+					same = false
+				}
+			}
+			if !same {
+				continue
+			}
+			save := g.noCalls
+			g.noCalls = true
+			args, ok := g.callArgs(f)
+			g.noCalls = save
+			if ok && !strings.Contains(args, "...") {
+				cands = append(cands, g.fname(f)+"("+args+")")
+			}
+		}
+		// function literals in scope with the same result types
+		for _, v := range g.visible() {
+			if v.T.K == KFunc && v.RO && len(v.T.Results) == len(g.curResults) {
+				same := true
+				for i, rt := range v.T.Results {
+					if !rt.Eq(g.curResults[i]) {
+						same = false
+					}
+				}
+				if same {
+					if args, ok := g.simpleArgs(v.T.Params); ok {
+						cands = append(cands, v.Name+"("+args+")")
+					}
+				}
+			}
+		}
+		if len(cands) > 0 {
+			g.line("return %s", core.Pick(g.r, cands))
+			return
+		}
+	}
 	var es []string
 	for _, t := range g.curResults {
 		e, _ := g.expr(t, 2)
@@ -152,6 +212,7 @@ func (g *G) emitFunc(f *Func, stmts int) {
 		g.declare(p)
 	}
 	g.curResults, g.curPure = f.Results, f.Pure
+	g.inRecursive = true // every function may be called from a loop: strings grow additively only
 	g.budget = stmts
 	g.line("func %s%s%s {", recv, f.Name, g.sigString(f))
 	g.ind++
@@ -502,6 +563,7 @@ func (g *G) genMain(p *Program) {
 	g.scope, g.marks = nil, nil
 	g.push()
 	g.budget = g.w.stmtsMain * 3
+	g.inRecursive = false
 	g.line("func main() {")
 	g.ind++
 	// a few locals of the common types so expressions have operands
